@@ -21,8 +21,42 @@ def facts_of(p):
 
 def check_guards(chk, mi, fn, qual, reqs):
     """reqs: list of (tag, alternatives[(atom, truth)], when[(atom, truth)] or None, witness)"""
-    ps = paths_of(fn)
+    from ..core import canon_ast, with_boolean_helpers
+    from ..kwprof import _norm_leaf, entails
+    ps = paths_of(with_boolean_helpers(fn))  # a guard moved into a boolean helper (`_holds_one_value_per_index(scale, base, axis)`) is read through
     ok_paths = [p for p in ps if p.end[0] in ("return", "fall")]
+
+    def lits(pairs):
+        out = []
+        for a, t in pairs:
+            try:
+                out.append((canon_ast(ast.parse(str(a), mode="eval").body), t))
+            except SyntaxError:
+                pass
+        return out
+
+    def compatible(p, when):
+        """can the path be taken under the precondition?  (no fact needed: `not (per_axis and ...)` is compatible with `not per_axis`)"""
+        extra = lits(when)
+        if len(extra) != len(when):
+            return False
+        verdict, _ = entails([(canon_ast(c), t) for c, t, _ in p.conds] + extra, lambda v: False, [])
+        return verdict is False  # some valuation satisfies the conditions together with the precondition
+
+    def implied(p, alts, when=()):
+        """do the conditions of the path imply one of the alternatives?  (`per_axis and not ok(...)` being false establishes `not per_axis or ok(...)`:
+        no single fact, yet exactly the disjunction a row with a precondition alternative asks for)"""
+        goal = []
+        for a, t in alts:
+            try:
+                leaf, pol = _norm_leaf(ast.parse(str(a), mode="eval").body)
+            except SyntaxError:
+                continue
+            goal.append((leaf, t if pol else not t))
+        if not goal:
+            return False
+        verdict, _ = entails([(canon_ast(c), t) for c, t, _ in p.conds] + lits(when), lambda v: any(v[a] is t for a, t in goal), [a for a, _ in goal])
+        return verdict is True
     if not ok_paths:
         chk.unknown("C14.R1", f"{mi.rel}:{fn.lineno}", f"{qual} has no non-raising path")
         return
@@ -31,10 +65,10 @@ def check_guards(chk, mi, fn, qual, reqs):
         bad_path = None
         for p in ok_paths:
             f = facts_of(p)
-            if when and not all(f.get(a) is t for a, t in when):
+            if when and not all(f.get(a) is t for a, t in when) and not (all(f.get(a) is None for a, t in when) and compatible(p, when)):
                 continue
             n_app += 1
-            if not any(f.get(a) is t for a, t in alts):
+            if not any(f.get(a) is t for a, t in alts) and not implied(p, alts, when or ()):
                 bad_path = p
         site = f"{mi.rel}:{fn.lineno}"
         if n_app == 0:
